@@ -439,11 +439,43 @@ END = {'x': 2, 's': 'end'}
 MAXCALLS = 60
 
 
-def make_lazy_operand(o, shared):
+def inval_of(i, ivmode):
+    """the input value with identifier i (0: none)"""
+    if i == 0:
+        return None
+    return {'x': i} if ivmode == 'dict' else i
+
+
+def inval_id(inval):
+    if inval is None:
+        return 0
+    return inval['x'] if isinstance(inval, dict) else inval
+
+
+def make_reader(o, ivmode):
+    """an operand that computes its element from the input value of the step"""
+    from sc3.base.stream import FunctionStream
+    from sc3.seq.patterns.funcpatterns import Pfunc, Pfuncn
+    from sc3.seq.patterns.eventpatterns import Pkey
+    base = num(o['vals'][0])
+
+    def f(inval):
+        return base + 16 * inval_id(inval)
+    src = o.get('src', 'pfunc')
+    if o['k'] == 'pat':
+        if src == 'pkey' and ivmode == 'dict':
+            return Pkey('x') if o['n'] >= 99 else Pkey('x', o['n'])
+        return Pfunc(f) if o['n'] >= 99 else Pfuncn(f, o['n'])
+    return FunctionStream(f)
+
+
+def make_lazy_operand(o, shared, ivmode='num'):
     """operand object for one argument position; stream objects with the same sid are one object"""
     k = o['k']
     if k == 'num':
         return num(o['v'])
+    if o.get('rd'):
+        return make_reader(o, ivmode)
     if k in ('strm', 'rout'):
         key = o['sid']
         if key in shared:
@@ -458,11 +490,14 @@ def make_lazy_operand(o, shared):
     raise AssertionError(k)
 
 
-def lazy_leaves(o):
+def lazy_leaves(o, ni=1, ivmode='num'):
     """the evaluated operand alone: its leaf values"""
     k = o['k']
     if k == 'num':
         return [num(o['v'])]
+    if o.get('rd'):         # one leaf per input value: a fresh copy asked once with that value
+        from sc3.base.stream import stream
+        return [stream(make_reader(o, ivmode)).next(inval_of(i, ivmode)) for i in range(1, ni + 1)]
     obj = make_lazy_operand(o, {})
     if k == 'fn':
         return [obj(*p) for p in POINTS]
@@ -486,25 +521,40 @@ def outcome(v):
             except Exception as ex:
                 c.append(exc(ex))
         return {'v': {'x': 0, 's': 'fn'}, 'c': c}
-    if isinstance(v, int) and not isinstance(v, bool) and v == MARK:
-        return {'v': {'x': 3, 's': 'mark'}, 'c': []}
+    if isinstance(v, int) and not isinstance(v, bool) and MARK <= v < MARK + 64:
+        return {'v': {'x': 3, 's': v - MARK}, 'c': []}      # the marker item tells the input value it was asked with
     return {'v': val(v), 'c': []}
 
 
+class EmbedTraversal:
+    """embed(C, inval): the generator is made with the input value of the first call, later ones are sent"""
+    def __init__(self, C):
+        self.C = C
+        self.g = None
+
+    def next(self, inval):
+        from sc3.base.stream import embed
+        if self.g is None:
+            self.g = embed(self.C, inval)
+            return next(self.g)
+        return self.g.send(inval)
+
+
 def traversals(how, C):
-    """the objects whose next() is called, for an evaluation mode"""
-    from sc3.base.stream import stream, embed
+    """the objects whose next(inval) is called, for an evaluation mode"""
+    from sc3.base.stream import stream
     from sc3.seq.patterns.listpatterns import Pseq
+    from sc3.seq.patterns.funcpatterns import Pfuncn
     if how == 'stream':
         return [stream(C)]
     if how == 'embed':
-        return [embed(C)]
+        return [EmbedTraversal(C)]
     if how == 'nested':
         return [stream(Pseq([C]))]
     if how == 'nested2':
         return [stream(Pseq([Pseq([C])]))]
     if how == 'tail':
-        return [stream(Pseq([C, MARK]))]
+        return [stream(Pseq([C, Pfuncn(lambda inval: MARK + inval_id(inval), 1)]))]
     if how == 'twice':
         return [stream(Pseq([C], 2))]
     if how == 'twice2':
@@ -517,17 +567,17 @@ def traversals(how, C):
     raise AssertionError(how)
 
 
-def call_next(t):
-    from sc3.base.stream import Stream
-    if isinstance(t, Stream):
-        return t.next()
-    return next(t)          # a generator (embed)
+def call_next(t, inval):
+    return t.next(inval)
 
 
 def run_lazy(bi, c):
     from sc3.base.stream import StopStream
     ops = c['ops']
-    leaves = [lazy_leaves(o) for o in ops]
+    invs = c.get('invs', [0])
+    ivmode = c.get('ivmode', 'num')
+    ni = max(max(invs), 1)
+    leaves = [lazy_leaves(o, ni, ivmode) for o in ops]
     dims = [len(l) for l in leaves]
     K = kernel(bi, c['op'], c['form'])
     total = 1
@@ -547,7 +597,7 @@ def run_lazy(bi, c):
     O = []
     try:
         shared = {}
-        objs = [make_lazy_operand(o, shared) for o in ops]
+        objs = [make_lazy_operand(o, shared, ivmode) for o in ops]
         cc = dict(op=c['op'], form=c['form'], ar=min(len(ops), 3), kb='lazy', pos=0)
         if len(ops) == 1:
             C = compose(bi, cc, objs[0], None, [])
@@ -559,13 +609,13 @@ def run_lazy(bi, c):
         ts = traversals(c['how'], C)
         alive = [True] * len(ts)
         turn = 0
-        for _ in range(MAXCALLS):
+        for j in range(MAXCALLS):
             if not any(alive):
                 break
             if not alive[turn]:
                 turn = (turn + 1) % len(ts)
             try:
-                O.append(outcome(call_next(ts[turn])))
+                O.append(outcome(call_next(ts[turn], inval_of(invs[j % len(invs)], ivmode))))
             except (StopStream, StopIteration):
                 O.append({'v': END, 'c': []})
                 alive[turn] = False
@@ -577,8 +627,9 @@ def run_lazy(bi, c):
     except Exception as ex:      # building the composition or the traversal failed
         O = [{'v': exc(ex), 'c': []}]
     return dict(id=c['id'], ty='lazy', op=c['op'], form=c['form'], how=c['how'],
-                ops=[dict(k=o['k'], n=dims[k], sid=o.get('sid', k + 1)) for k, o in enumerate(ops)],
-                law=c['law'], gen=bool(c['gen']), tab=tab, O=O)
+                ops=[dict(k=o['k'], n=o['n'] if o.get('rd') else dims[k], rd=bool(o.get('rd')), sid=o.get('sid', k + 1))
+                     for k, o in enumerate(ops)],
+                law=c['law'], gen=bool(c['gen']), invs=invs, tab=tab, O=O)
 
 
 # ------------------------------------------------------------------ function composites and call shapes
